@@ -426,24 +426,30 @@ Arguments layer_sem : clear implicits.
 (* ------------------------------------------------------------------------- *)
 (* (C) listeners.
    A listener reacts to an event by returning, by panicking with an ordinary payload, or by panicking
-   with a payload whose destructor panics in turn (std::panic::panic_any(Bomb)). A listener
-   invocation is made under one of three guards:
-     GCatchDrop  catch_unwind around the listener AND around the drop of the caught payload
-                 (EventListeners::emit since fix afefac0): nothing escapes;
-     GCatch      catch_unwind around the listener only, the payload is dropped outside it
-                 (emit before afefac0; reconnect's on_state_change / on_reconnect callback sites,
-                 `let _ = catch_unwind(..)`): a Bomb payload escapes;
+   with a payload whose destructor panics in turn (std::panic::panic_any(Bomb)) -- [Bombs d]: the
+   destructor's panic carries a payload of the same kind again, d levels deep (Bombs 1: the plain Bomb).
+   A listener invocation is made under one of these guards:
+     GCatchLoop  catch_unwind around the listener; the caught payload is dropped under catch_unwind, and
+                 so is the payload of a panic raised by that drop, and so on, 16 times, after which the
+                 payload is leaked (core::events::drop_panic_payload, fix d1b49ff; EventListeners::emit
+                 and reconnect's callback helper `observe`): nothing escapes, at any depth;
+     GCatchDrop  catch_unwind around the listener and around ONE drop of the caught payload, the
+                 second-level payload discarded bare (emit after afefac0, observe after 56b9388): a
+                 payload nested two or more levels deep escapes;
+     GCatch      catch_unwind around the listener only (emit before afefac0; reconnect's callback sites
+                 before 56b9388): a Bomb payload escapes;
      GBare       no guard (reconnect's callback sites before fix 484f229): every panic escapes.
    A panic that escapes unwinds through the rest of the emit loop and through the call. *)
-Inductive lresult := Returns | Panics | Bombs | Skipped.
+Inductive lresult := Returns | Panics | Bombs (d : nat) | Skipped.
   (* Skipped: the listener is not registered for this kind of event (reconnect has one callback per kind) *)
 Definition listener := Z -> lresult.       (* reaction to an event (kind) *)
-Inductive guard := GBare | GCatch | GCatchDrop.
+Inductive guard := GBare | GCatch | GCatchDrop | GCatchLoop.
 
 Definition contained (g : guard) (r : lresult) : bool :=
   match r, g with
   | Panics, GBare => false
-  | Bombs, GBare | Bombs, GCatch => false
+  | Bombs _, GBare | Bombs _, GCatch => false
+  | Bombs d, GCatchDrop => Nat.leb d 1
   | _, _ => true
   end.
 
@@ -457,7 +463,7 @@ Fixpoint emit_g (g : guard) (ls : list listener) (ev : Z) : list lresult * bool 
   end.
 
 (* EventListeners::emit *)
-Definition emit (ls : list listener) (ev : Z) : list lresult := fst (emit_g GCatchDrop ls ev).
+Definition emit (ls : list listener) (ev : Z) : list lresult := fst (emit_g GCatchLoop ls ev).
 
 (* how a call ends *)
 Inductive final := FOut (kind payload : Z) | FPanic.
@@ -479,7 +485,7 @@ Fixpoint run_steps (guarded : guard) (ls : list listener) (steps : list lstep)
 
 (* how often listener i was invoked with an event of kind ev *)
 Definition invoked (r : option lresult) : bool :=
-  match r with Some Returns | Some Panics | Some Bombs => true | _ => false end.
+  match r with Some Returns | Some Panics | Some (Bombs _) => true | _ => false end.
 Definition count_kind (i : nat) (ev : Z) (deliveries : list (Z * list lresult)) : Z :=
   Z.of_nat (length (filter (fun d => andb (fst d =? ev) (invoked (nth_error (snd d) i))) deliveries)).
 
